@@ -203,7 +203,7 @@ pub const BUILD_CONFIG: &str = match (cfg!(feature = "builtin"), cfg!(feature = 
     (true, true, true) => "main: all features, overflow checks and debug assertions on, log level Trace",
     (true, true, false) => "plain-all: release profile (no debug assertions / overflow checks), all features, no logger",
     (true, false, false) => "plain: release profile (no debug assertions / overflow checks), without rust-secp256k1, no logger",
-    (true, false, true) => "without rust-secp256k1, debug assertions on",
+    (true, false, true) => "k256-dbg: enr without rust-secp256k1, overflow checks and debug assertions on, log level Trace",
     (false, _, _) => "minimal: enr with features [serde, verif] only (no built-in key type), custom key types alone; assertions on",
 };
 /// short tag of the configuration (file names)
@@ -211,7 +211,7 @@ pub const BUILD_TAG: &str = match (cfg!(feature = "builtin"), cfg!(feature = "li
     (true, true, true) => "main",
     (true, true, false) => "plain-all",
     (true, false, false) => "plain",
-    (true, false, true) => "nolibsecp-debug",
+    (true, false, true) => "k256-dbg",
     (false, _, _) => "minimal",
 };
 
